@@ -2,22 +2,33 @@ package main
 
 import (
 	"fmt"
+	"sort"
 
 	"github.com/diskfs/go-diskfs/filesystem/iso9660"
 
 	"verif/harness/internal/fsx"
-	"verif/harness/internal/rawiso"
 )
 
 func main() {
-	v, err := fsx.BuildImage("iso", []fsx.Entry{{Path: "a.txt", Data: fsx.Content(1, 700)}, {Path: "l1", Link: "a.txt"}, {Path: "l2", Link: "/abs/target/which/is/longer"}}, fsx.Opt{Size: 2 << 20, IsoOpts: &iso9660.FinalizeOptions{RockRidge: true}})
+	var es []fsx.Entry
+	for _, dn := range []string{"v1.0", "v1.1", "v1.2", "conf.d", "conf.bak", "pkg", "pkg.old", "a.b.c", "a.b.d"} {
+		es = append(es, fsx.Entry{Path: dn, Dir: true}, fsx.Entry{Path: dn + "/file one.txt", Data: []byte(dn)}, fsx.Entry{Path: dn + "/inner.d", Dir: true})
+	}
+	for _, fn := range []string{"data.1", "data.2", "data.10", "readme", "readme.txt"} {
+		es = append(es, fsx.Entry{Path: fn, Data: []byte(fn)})
+	}
+	v, err := fsx.BuildImage("iso", es, fsx.Opt{Size: 4 << 20, IsoOpts: &iso9660.FinalizeOptions{}})
 	if err != nil {
 		panic(err)
 	}
-	iso, err := rawiso.ParseISO(v.Dev, 0, 2<<20, 2048)
-	fmt.Println(err)
-	for _, e := range iso.Entries {
-		fmt.Printf("%q dir=%v lba=%d size=%d\n", e.Path, e.IsDir, e.LBA, e.Size)
+	w, err := fsx.Walk(v.FS, 1<<20)
+	fmt.Println("walk err:", err)
+	var ps []string
+	for p, n := range w {
+		ps = append(ps, fmt.Sprintf("%-30s %s %q %s", p, n.Kind, string(n.Data), n.Err))
 	}
-	fmt.Println(iso.Problems)
+	sort.Strings(ps)
+	for _, p := range ps {
+		fmt.Println(p)
+	}
 }
